@@ -26,7 +26,7 @@ Definition follow_ok (ty : tokType) (rest : bytes) : bool :=
     | tLbracket => negb (N.eqb b 63) && negb (N.eqb b 93)
     | tPipe => negb (N.eqb b 124)
     | tExpref => negb (N.eqb b 38)
-    | tNot | tLT | tGT => negb (N.eqb b 61)
+    | tNot | tLT | tGT | tUnknown => negb (N.eqb b 61)
     | _ => true
     end
   end.
@@ -144,6 +144,18 @@ Proof.
 Qed.
 
 (* ---- numbers ---- *)
+(* what the lexer takes as a number token: a minus sign or a digit, then digits
+   (a lone minus sign is a number token that the parser then refuses) *)
+Definition number_lex (v : bytes) : bool :=
+  match v with [] => false | c :: ds => (N.eqb c 45 || is_digit c) && forallb is_digit ds end.
+
+Lemma number_text_lex v : number_text v = true -> number_lex v = true.
+Proof.
+  destruct v as [|c ds]; [discriminate|]. cbn [number_text number_lex]. destruct (N.eqb c 45); cbn [orb andb].
+  - destruct ds; [discriminate | auto].
+  - auto.
+Qed.
+
 Lemma number_loopS_stop : forall ds fuel p rest w, follow_ok tNumber rest = true -> forallb is_digit ds = true -> (length ds < fuel)%nat ->
   exists k, number_loopS fuel (AS p (ds ++ rest) w) = Ok (AS (p + zlen ds) rest k).
 Proof.
@@ -162,16 +174,16 @@ Proof.
     destruct (IH f (p + 1) rest 1 Hfo Hd ltac:(cbn in Hf; lia)) as [k Hk]. exists k. rewrite Hk. f_equal. f_equal. unfold zlen. cbn [length]. lia.
 Qed.
 
-Lemma lexR_number v f p rest w acc : follow_ok tNumber rest = true -> 0 <= p -> number_text v = true -> lexedR f p v rest w acc tNumber v.
+Lemma lexR_number_lex v f p rest w acc : follow_ok tNumber rest = true -> 0 <= p -> number_lex v = true -> lexedR f p v rest w acc tNumber v.
 Proof.
   intros Hfo Hp Hn. unfold lexedR. destruct v as [|c ds]; [discriminate|].
   assert (Hfirst : (Z.of_N c =? 45) || ((48 <=? Z.of_N c) && (Z.of_N c <=? 57)) = true /\ N.ltb c 128 = true /\
                    forallb is_digit ds = true /\ ident_start (Z.of_N c) = false /\ assoc_Z (Z.of_N c) basic_tokens = None).
-  { cbn [number_text] in Hn. destruct (N.eqb_spec c 45) as [->|Hne].
-    - destruct ds as [|d ds']; [discriminate|]. repeat split; try reflexivity. exact Hn.
-    - apply andb_true_iff in Hn as [Hd1 Hd2]. unfold is_digit in Hd1. repeat split; try lia; try exact Hd2.
-      + rewrite ident_start_ok by lia. unfold is_alpha_Z. lia.
-      + rewrite basic_tokens_ok. repeat match goal with |- context [if ?b then _ else _] => destruct b eqn:?; try lia end. reflexivity. }
+  { cbn [number_lex] in Hn. apply andb_true_iff in Hn as [Hc Hds]. unfold is_digit in Hc.
+    assert (Hc' : c = 45%N \/ (48 <= c <= 57)%N) by lia.
+    repeat split; try lia; try exact Hds.
+    + rewrite ident_start_ok by lia. unfold is_alpha_Z. lia.
+    + rewrite basic_tokens_ok. repeat match goal with |- context [if ?b then _ else _] => destruct b eqn:?; try lia end. reflexivity. }
   destruct Hfirst as [H1 [H2 [H3 [H4 H5]]]].
   destruct (number_loopS_stop ds (S (length ((c :: ds) ++ rest) + Z.to_nat p)) (p + 1) rest 1 Hfo H3
               ltac:(cbn [length app]; rewrite app_length; lia)) as [k Hk].
@@ -189,6 +201,9 @@ Proof.
     replace (p + zlen (c :: ds) - p) with (zlen (c :: ds)) by lia. reflexivity. }
   eexists _, _, _. split; [|split; [|split; [reflexivity | exact Hloop]]]; reflexivity.
 Qed.
+
+Lemma lexR_number v f p rest w acc : follow_ok tNumber rest = true -> 0 <= p -> number_text v = true -> lexedR f p v rest w acc tNumber v.
+Proof. intros H1 H2 H3. apply lexR_number_lex; [exact H1 | exact H2 | apply number_text_lex; exact H3]. Qed.
 
 (* ---- identifiers, strings, literals ---- *)
 Lemma lexR_unquoted name f p rest w acc : follow_ok tUnquotedIdentifier rest = true -> 0 <= p -> valid_unquoted name = true ->
